@@ -98,7 +98,7 @@ fn main() {
 	};
 	let wall = match tier {
 		Tier::Quick => Duration::from_secs(std::env::var("VERIF_WALL_S").ok().and_then(|s| s.parse().ok()).unwrap_or(150)),
-		Tier::Thorough => Duration::from_secs(std::env::var("VERIF_WALL_S").ok().and_then(|s| s.parse().ok()).unwrap_or(1200)),
+		Tier::Thorough => Duration::from_secs(std::env::var("VERIF_WALL_S").ok().and_then(|s| s.parse().ok()).unwrap_or(2400)),
 	};
 	let ctx = mk_ctx(tier, seed, threads, root.clone(), wall);
 
